@@ -342,6 +342,10 @@ func (self Reflect) listMap(v reflect.Value) node.Node {
 		OnNext: func(r node.ListRequest) (node.Node, []val.Value, error) {
 			var item reflect.Value
 			key := r.Key
+			if (r.New || key != nil) && !isKeyValid(key) {
+				// entry given without its key
+				return nil, nil, fmt.Errorf("no key specified for %s", r.Path.String())
+			}
 			if r.New {
 				item = self.create(e, nil)
 				keyVal := reflect.ValueOf(key[0].Value())
